@@ -266,6 +266,17 @@ def g_cond(ex, c, lf):
             ex.check(lf, con[0]['args'][1:3] == [('p', c.k_L), ('p', c.k_U)] and con[0]['args'][4] == ('p', c.k_rcond), 'gscon-arguments', [],
                      '%sgscon must receive (norm, L, U, anorm, rcond, ...)' % p, con[0]['line'])
             ex.check(lf, lan[-1]['args'][1] == c.AA(lf) or not c.nofact(lf), 'norm-of-factored-matrix', ['A.Stype'], '%slangs must measure the matrix that was factored' % p, lan[-1]['line'])
+            # the info = n+1 warning: the comparison of rcond with machine epsilon must lie on every path from the estimate to a return
+            # (in particular it may not depend on the number of right-hand sides), and the store it guards must name A's order
+            mach = [e for e in lf.calls(lambda nm: nm in ('smach', 'dmach')) if lf.can_reach(con[0]['node'], e['node'])]
+            rets = [e for e in lf.returns() if lf.can_reach(con[0]['node'], e['node'])]
+            skip = [r for r in rets if lf.can_reach(con[0]['node'], r['node'], avoiding=[e['node'] for e in mach])]
+            ex.check(lf, bool(mach) and bool(rets) and not skip, 'warning-test-on-every-path', sel,
+                     'after %sgscon every path to a return must compare rcond with machine epsilon (info = n+1 is raised exactly when rcond < eps, whatever nrhs is)' % p,
+                     (skip or rets or con)[0]['line'] or con[0]['line'])
+            st = [e for e in lf.stores() if e['target'] == '*$%d' % c.k_info and e['rhs'] is not None and '$%d' % c.k_A in _reads(lf, e)
+                  and any(lf.can_reach(m['node'], e['node']) for m in mach)]
+            ex.check(lf, bool(st), 'warning-store-after-test', sel, 'the rcond < eps test must guard a store of A->ncol + 1 into *info', (mach or con)[0]['line'])
     elif v.get('ConditionNumber') == E['NO']:
         ex.check(lf, not con, 'no-estimate-when-not-asked', sel, 'ConditionNumber = NO: %sgscon must not run' % p, con[0]['line'] if con else None)
         st = [e for e in lf.stores() if e['target'] == '*$%d' % c.k_info and e['rhs'] is not None and '$%d' % c.k_A in _reads(lf, e)]
